@@ -7,6 +7,7 @@ import (
 	"fmt"
 	"math/big"
 	"sort"
+	"sync/atomic"
 	"time"
 
 	"github.com/Factom-Asset-Tokens/factom"
@@ -22,8 +23,8 @@ import (
 )
 
 func (d *Pegnetd) GetCurrentSync() uint32 {
-	// Should be thread safe since we only have 1 routine writing to it
-	return d.Sync.Synced
+	// Only the sync routine writes it (after the block is committed); read atomically
+	return atomic.LoadUint32(&d.Sync.Synced)
 }
 
 // DBlockSync iterates through dblocks and syncs the various chains
@@ -121,11 +122,11 @@ OuterSyncLoop:
 			// Bump our sync, and march forward
 
 			verifGate("sync:before-bump")
-			d.Sync.Synced++
-			verifGate("sync:after-bump")
-			err = d.Pegnet.InsertSynced(tx, d.Sync)
+			// The height other goroutines (the API) read is only advanced once the block is
+			// committed: record the new height through a copy.
+			synced := &pegnet.BlockSync{Synced: d.Sync.Synced + 1}
+			err = d.Pegnet.InsertSynced(tx, synced)
 			if err != nil {
-				d.Sync.Synced--
 				hLog.WithError(err).Errorf("unable to update synced metadata")
 				err = tx.Rollback()
 				if err != nil {
@@ -139,14 +140,16 @@ OuterSyncLoop:
 			err = tx.Commit()
 			verifGate("sync:after-commit")
 			if err != nil {
-				d.Sync.Synced--
 				hLog.WithError(err).Errorf("unable to commit transaction")
 				err = tx.Rollback()
 				if err != nil && err != sql.ErrTxDone { // a failed Commit has already released the transaction
 					// TODO evaluate if we can recover from this point or not
 					hLog.WithError(err).Fatal("unable to roll back transaction")
 				}
+				continue OuterSyncLoop
 			}
+			atomic.StoreUint32(&d.Sync.Synced, synced.Synced)
+			verifGate("sync:after-bump")
 
 			elapsed := time.Since(start)
 			hLog.WithFields(log.Fields{"took": elapsed}).Debugf("synced")
